@@ -3,7 +3,7 @@
 //! compared datagram-for-datagram.
 
 use crate::refcodec::{self, RDec, RPacket};
-use crate::sim::{wire, Ev, Role, Scenario, SimResult, TIMEOUT};
+use crate::sim::{wire, Ev, Role, Scenario, SimResult};
 use std::time::Duration;
 
 #[derive(Clone, Debug)]
@@ -67,6 +67,8 @@ pub fn analyze(sc: &Scenario, r: &SimResult) -> (Vec<Finding>, Facts) {
 }
 
 fn analyze_sender(sc: &Scenario, r: &SimResult) -> (Vec<Finding>, Facts) {
+    #[allow(non_snake_case)]
+    let TIMEOUT = sc.timeout();
     let mut out = vec![];
     let mut fa = Facts {
         role_sender: true,
